@@ -152,3 +152,12 @@ META["C12"] = {
     "note": "Fake grpc.ClientConnInterface implementations stand in for real clients; generated files are compared per package by content modulo import-block layout; plugins are built from the current tree (no protoc needed).",
     "technique": "exhaustive router x method enumeration with rapid-generated traffic + model-based registry testing + generator differential (translation check by regeneration)",
 }
+META["C13"] = {
+    "text": ("Differential testing of the in-process wrapper against a real gRPC connection: rapid generates rendezvous-consistent call scripts for the four call shapes (message counts, "
+             "SetHeader/SendHeader/SetTrailer placements, status codes or plain errors at any position, client cancel after the j-th message, deadlines against a blocking handler, outgoing metadata); "
+             "one scripted TestApi server implementation serves both wrap.ServerToClient and a grpc.Server on bufconn, and the client transcripts must agree on messages, terminal outcome class, user "
+             "header/trailer metadata and what the server saw. Additional generated cases check copy isolation across the boundary, Unimplemented for unknown methods, Internal for a mismatched "
+             "stream shape, release of a handler parked in Send when the client goes away, and that no pkg/wrap goroutine survives a finished or cancelled call."),
+    "note": "The real transport is the oracle, so scripts avoid what gRPC itself leaves nondeterministic (buffer-dependent intermediate results, header operations after headers went out, reserved metadata keys); cancelled/deadline calls are compared by outcome class only.",
+    "technique": "differential testing with rapid-generated call scripts: wrap.ServerToClient vs a real gRPC server on bufconn",
+}
